@@ -182,7 +182,7 @@ Definition res_eqb (a b : res) : bool :=
   | ROk, ROk => true
   | RVal x, RVal y => beq x y
   | RKeys x, RKeys y => set_eqb x y           (* a key listing is a set *)
-  | RErr x, RErr y => err_eqb x y
+  | (RErr _ | ROther), (RErr _ | ROther) => true   (* the property does not fix exception classes: a failure is a failure *)
   | _, _ => false
   end.
 Fixpoint all2 {A} (p : A -> A -> bool) (x y : list A) : bool :=
